@@ -13,3 +13,4 @@ func hookIDValue(id ecs.ID) int                             { return ecs.VerifID
 func hookTables(w *ecs.World) (int, int, int)               { return w.VerifTableStats() }
 func hookLocate(w *ecs.World, e ecs.Entity) (int, int, int) { return w.VerifLocate(e) }
 func hookCapSum(w *ecs.World) int                           { return w.VerifCapSum() }
+func hookLocks(w *ecs.World) int                            { return w.VerifLocks() }
